@@ -136,6 +136,15 @@ v("C06", "regen-omits-epoch", RF, '            fo.attrs["epoch"] = md["epoch"]\n
 v(["C06", "C11"], "subchannel-compare-deleted", LIB,
   "\t\tH5Aread(attribute_id, H5T_NATIVE_INT, &int_result);\n\t\tif (int_result != hdf5_data_object->num_subchannels)\n\t\t{\n\t\t\tfprintf(stderr, \"Mismatching num_subchannels found\\n\");\n\t\t\treturn(-1);\n\t\t}\n",
   "\t\tH5Aread(attribute_id, H5T_NATIVE_INT, &int_result);\n", rules=["C06.R1", "C11.R1"])
+_C06_ROW = "next_global_sample < prev_sample + (this_index - prev_index) && last_global_sample > this_sample)"
+v("C06", "row-for-block-of-next-file", LIB, _C06_ROW, _C06_ROW.replace("last_global_sample > this_sample", "last_global_sample >= this_sample"), count=0,
+  rules=["C06.R7"])
+v("C06", "row-for-block-of-next-file-count-pass-only", LIB, _C06_ROW, _C06_ROW.replace("last_global_sample > this_sample", "last_global_sample >= this_sample"),
+  rules=["C06.R5"])
+v("C06", "twin-row-bound-operands-swapped", LIB, _C06_ROW, _C06_ROW.replace("last_global_sample > this_sample", "this_sample < last_global_sample"), count=0,
+  expect="silent")
+v("C06", "twin-row-bound-negated", LIB, _C06_ROW, _C06_ROW.replace("last_global_sample > this_sample", "!(this_sample >= next_global_sample + samples_left)"), count=0,
+  expect="silent")
 v("C06", "second-seq-increment", LIB, "\t/* advance state */\n", "\thdf5_data_object->present_seq++;\n\t/* advance state */\n", rules=["C06.R2"])
 v("C06", "early-return-before-metadata", LIB, "\thdf5_data_object->dataset_avail = num_rows; /* size available to next write */\n",
   "\thdf5_data_object->dataset_avail = num_rows; /* size available to next write */\n\tif (samples_to_write == 0) return(0);\n", rules=["C06.R3"])
